@@ -142,9 +142,9 @@ theorem sc_roundtrip {V : Type} (r : Rec V) :
 theorem abs3Hd_toV3Hd {V : Type} (h : Hd V) : abs3Hd (toV3Hd h) = abs2Hd h := by
   simp [abs3Hd, toV3Hd, abs2Hd, sc_toV3]
 
-theorem abs2Hd_roundtrip {V : Type} (h : Hd V) (hd : h.disc = none) :
+theorem abs2Hd_roundtrip {V : Type} (h : Hd V) :
     abs2Hd (fromV3Hd (toV3Hd h)) = abs2Hd h := by
-  simp [abs2Hd, fromV3Hd, toV3Hd, sc_roundtrip, fileToBinary_idem, hd]
+  simp [abs2Hd, fromV3Hd, toV3Hd, sc_roundtrip, fileToBinary_idem]
 
 end KinModel.Conv
 
@@ -194,6 +194,14 @@ theorem sc_form_toV3 {V : Type} (r : Rec V) :
   exact normRec_convs_eq constraintFields [toV3FormTable] [idTable paramConstraintFields] r
     (by decide) (by decide) (by decide)
 
+theorem meta_toV3 {V : Type} (r : Rec V) :
+    normRec opMetaFields (conv toV3OpTable r) = normRec opMetaFields r :=
+  normRec_convs_eq opMetaFields [toV3OpTable] [] r (by decide) (by decide) (by decide)
+
+theorem meta_roundtrip {V : Type} (r : Rec V) :
+    normRec opMetaFields (conv fromV3OpTable (conv toV3OpTable r)) = normRec opMetaFields r :=
+  normRec_convs_eq opMetaFields [toV3OpTable, fromV3OpTable] [] r (by decide) (by decide) (by decide)
+
 theorem sc_form_roundtrip {V : Type} (r : Rec V) :
     normRec constraintFields (normRec paramConstraintFields (conv fromV3FormTable (conv toV3FormTable r))) =
     normRec constraintFields (normRec paramConstraintFields r) := by
@@ -207,7 +215,7 @@ namespace KinModel.Conv
 
 theorem Api_ext {V : Type} (a b : Api V) (h1 : a.ops = b.ops) (h2 : a.pathParams = b.pathParams)
     (h3 : a.shared = b.shared) (h4 : a.sharedResponses = b.sharedResponses) (h5 : a.defs = b.defs)
-    (h6 : a.servers = b.servers) (h7 : a.security = b.security) : a = b := by
+    (h6 : a.servers = b.servers) (h7 : a.security = b.security) (h8 : a.securityReq = b.securityReq) : a = b := by
   cases a; cases b; simp_all
 
 end KinModel.Conv
